@@ -400,7 +400,7 @@ func genCase(r *hx.Rand, tier string) *caseT {
 		k.Head = true
 	}
 	if !simple && r.Chance(1, 8) {
-		k.Wrap = hx.Pick(r, []string{"outer-noflush", "outer-noflush", "outer-flush", "inner-noflush", "inner-flush", "outer-lazyheader", "outer-lazyheader"})
+		k.Wrap = hx.Pick(r, []string{"outer-noflush", "outer-noflush", "outer-flush", "inner-noflush", "inner-flush", "outer-lazyheader", "outer-lazyheader", "outer-realtimeout", "outer-realtimeout"})
 	}
 	pn := -1
 	if !k.Head && r.Chance(1, 14) {
